@@ -177,7 +177,8 @@ def body_kill(rec, c):
             expected = prev["carry"].get("inflight_at_last_step", [])
         # a restart with fewer steps left than recorded jobs re-issues only as many as it needs (the others are surplus)
         remaining = max(0, c["segments"][k]["steps"] - cur.get("cstep_start", 0))
-        m = min(len(expected), remaining)
+        w_now = c["segments"][k].get("workers", c["spec"]["workers"])  # a restart on fewer workers re-issues at most that many
+        m = min(len(expected), remaining, w_now)
         issued = cur.get("issued_all", [])[:m]
         want = sorted((tuple(e["ens"]), tuple(str(p) for p in e["paths"])) for e in expected)
         got = sorted((tuple(i[0]), tuple(i[1])) for i in issued)
@@ -197,7 +198,7 @@ def body_kill(rec, c):
         else:
             ok = got == want
         rec.check(ok, f"C06:in-flight-jobs-not-reissued:{'after-earlier-restart' if k >= 2 else 'first-restart'}",
-                  f"restart {k}: in flight at the stop {want}, first jobs issued {got} (steps left {remaining})\n  case={c}")
+                  f"restart {k}: in flight at the stop {want}, first jobs issued {got} (steps left {remaining}, workers {w_now})\n  case={c}")
     nt = nkill_inflight >= 1
     rec.case(key=c, nontrivial=nt, classes=["kill", f"workers={c['spec']['workers']}", "reissue-after-earlier-restart" if chain_of_restarts else "reissue-first"],
              sample={"spec": c["spec"], "segments": [{k: v for k, v in s.items() if k != "schedule"} for s in c["segments"]]} if nt and len(rec.samples) < 2 else None)
